@@ -831,3 +831,5 @@ M('sweep12-ipc-files-removed-when-they-are-NOT-ours', ['C06'], Z, "if os.stat(fn
 M('sweep12-ephemeral-level-subtracts', ['C05'], Z, "if (ephemeral := addr_connect.endswith('?') + addr_connect.endswith('??')):", "if (ephemeral := addr_connect.endswith('?') - addr_connect.endswith('??')):", ['C05.R15'])
 M('sweep12-doubly-ephemeral-gets-a-request-socket', ['C05'], Z, "push = context.socket(zmq.PUSH) if ephemeral < 2 else None", "push = context.socket(zmq.PUSH) if ephemeral <= 2 else None", ['C05.R15'])
 M('sweep12-doubly-ephemeral-is-sent-requests', ['C05'], Z, "            if self.ephemeral < 2:  # do not anything to doubly-ephemeral channels", "            if self.ephemeral <= 2:  # do not anything to doubly-ephemeral channels", ['C05.R15'])
+M('sweep12-date-offset-reread-in-the-wrong-cases', ['C08'], UTL, "    return dt if utc or dt.tzinfo is not tz else dt.replace(tzinfo=None).astimezone()  #", "    return dt if utc and dt.tzinfo is not tz else dt.replace(tzinfo=None).astimezone()  #", ['C08.R8'])
+M('sweep12-date-offset-reread-for-foreign-zones', ['C08'], UTL, "    return dt if utc or dt.tzinfo is not tz else dt.replace(tzinfo=None).astimezone()  #", "    return dt if utc or dt.tzinfo is tz else dt.replace(tzinfo=None).astimezone()  #", ['C08.R8'])
